@@ -168,7 +168,7 @@ func (s *Server) writeConfig() {
 		add("http", "auth-enabled = "+v)
 	}
 	if v := k["write-cold-duration"]; v != "" {
-		add("data", `write-cold-duration = "`+v+`"`)
+		add("data.memtable", `write-cold-duration = "`+v+`"`)
 	}
 	for key, v := range k {
 		if strings.HasPrefix(key, "raw:") { // raw:<section> -> line
